@@ -12,9 +12,8 @@ MODULE = "ColaVerif.Properties.C20"
 CALLS = ["getitem"]
 CORPUS = os.path.join(common.ROOT, "harness", "corpus", "c20.jsonl")
 
-# Findings of this check that are not yet decided (fix in /repo or record in known_findings.json).  Treated as known.
-# (`getitem-list-zip` was decided: repaired in /repo dd36003; Lean regression `C20_listPair_regression`.)
-PROVISIONAL_KNOWN = {}
+# Recorded clauses are read from /verif/known_findings.json (common.known_clauses); nothing is provisional.
+# (`getitem-list-zip` was repaired in /repo dd36003; Lean regression `C20_listPair_regression`.)
 
 
 def primitive_stream(ctx):
@@ -25,8 +24,6 @@ def primitive_stream(ctx):
     lens = range(0, 6) if not ctx.thorough else range(0, 8)
     for n in lens:
         for a, b, c in itertools.product(vals, vals, vals):
-            if not ctx.thorough and (len(cases) % 3) != (ctx.seed % 3) and abs((a or 0)) + abs((b or 0)) > 8:
-                pass
             cases.append({"id": len(cases), "call": "resolve", "n": n, "ix": {"s": [a, b, c]}})
             try:
                 want.append([int(x) for x in np.arange(n)[slice(a, b, c)]])
@@ -114,6 +111,5 @@ def run(ctx):
     def extra(ctx):
         out = primitive_stream(ctx)
         out.update(numpy_index_stream(ctx))
-        out["provisional_known"] = PROVISIONAL_KNOWN
         return out
-    c01.run(ctx, calls=CALLS, module=MODULE, corpus=CORPUS, extra=extra, provisional=PROVISIONAL_KNOWN)
+    c01.run(ctx, calls=CALLS, module=MODULE, corpus=CORPUS, extra=extra)
